@@ -585,6 +585,17 @@ impl<'tcx> TyGenContext<'_, 'tcx> {
 
             let param_borrow_kind = visitor.visit_param(&param.ty, &param_info.name);
 
+            // Optional slices are converted through the generic `Option` path below, which allocates them in the
+            // per-call cleanup arena and declares no `<param>Slice` edge, so they cannot be borrowed by the output.
+            if matches!(param.ty, hir::Type::DiplomatOption(..))
+                && matches!(param_borrow_kind, ParamBorrowInfo::BorrowedSlice)
+            {
+                self.errors.push_error(format!(
+                    "Optional slice parameter `{}` is borrowed by the return value, which the JS backend does not support",
+                    param_info.name
+                ));
+            }
+
             // If we're a slice of strings or primitives. See [`hir::Type::Slice`].
             if let hir::Type::Slice(..) = param.ty {
                 let slice_expr = self.gen_js_to_c_for_type(&param.ty, param_info.name.clone(), None, Some(
